@@ -2,6 +2,7 @@ import Fabio.Lemmas.C05Main
 import Fabio.Lemmas.C05Del
 import Fabio.Lemmas.C05Rebuild
 import Fabio.Lemmas.C05Fix
+import Fabio.Lemmas.C05Lang
 /-!
 C05 (round 4): no target comes from nowhere. Every target the spec machine (hence, by refinement, every table a
 command list builds) holds under some host and path carries the service, tags, options and (normalised) destination
@@ -301,5 +302,84 @@ theorem rebuildOK_of_built {t : Table} (h : newTable env ds = .ok t)
     have h2 : r.path = (key d.src).2 := congrArg Prod.snd he
     rw [h1, h2]
     exact C05Rebuild.src_of_key d.src
+
+/-! ### the text of a table built from well-formed commands is readable -/
+
+theorem upper_noSp : ∀ n, n < 91 → 65 ≤ n → isReSpace (Char.ofNat (n + 32)) = false := by decide
+
+theorem lowerChar_noSp (c : Char) (h : isReSpace c = false) : isReSpace (lowerChar c) = false := by
+  unfold lowerChar
+  split
+  · rename_i hu
+    have h1 : 65 ≤ c.toNat := hu.1
+    have h2 : c.toNat ≤ 90 := hu.2
+    exact upper_noSp c.toNat (by omega) h1
+  · exact h
+
+theorem lowerL_noSp {s : Str} (hs : ∀ c ∈ s, isReSpace c = false) : ∀ c ∈ lowerL s, isReSpace c = false := by
+  intro c hc
+  unfold lowerL at hc
+  obtain ⟨c0, h0, rfl⟩ := List.mem_map.1 hc
+  exact lowerChar_noSp c0 (hs c0 h0)
+
+/-- host and path a command's source denotes contain no RE2 white space if the source contains none -/
+theorem key_tok (s : Str) (hs : ∀ c ∈ s, isReSpace c = false) : ∀ c ∈ (key s).1 ++ (key s).2, isReSpace c = false := by
+  obtain ⟨h, rest, hh, hr, rfl⟩ := C05Rebuild.split_slash s
+  unfold key
+  rw [C05Rebuild.hostpath_eq h rest hh hr]
+  have hh' : ∀ c ∈ h, isReSpace c = false := fun c hc => hs c (List.mem_append.2 (.inl hc))
+  have hrest : ∀ c ∈ rest, isReSpace c = false := fun c hc => hs c (List.mem_append.2 (.inr hc))
+  split
+  · intro c hc
+    simp only [List.append_nil] at hc
+    exact lowerL_noSp hs c hc
+  · intro c hc
+    rcases List.mem_append.1 hc with hc | hc
+    · exact lowerL_noSp hh' c hc
+    · split at hc
+      · rw [List.mem_singleton] at hc; subst hc; decide
+      · exact hrest c hc
+
+/-- **every line `String()` writes for a table built from well-formed commands is readable**: of `TextOK` only the
+two facts about libraries remain as hypotheses — the stored URL (`url.Parse(dst).String()`) is non-empty and free of
+white space, and the line is shorter than `bufio.MaxScanTokenSize` -/
+theorem textOK_of_wellformed {pf : ParseFloat} {t : Table} (cs : List (Str × RouteDef))
+    (hcs : ∀ x ∈ cs, C05Lang.DefOK pf x.1 x.2) (ht : newTable env (cs.map (·.2)) = .ok t)
+    (hurl : ∀ hst, ∀ r ∈ t.get hst, ∀ tg ∈ r.targets, tg.url ≠ [] ∧ ∀ c ∈ tg.url, isUniSpace c = false)
+    (hshort : ∀ hst, ∀ r ∈ t.get hst, ∀ tg ∈ r.targets, byteLen (renderTarget r tg) < maxToken) :
+    ∀ hst, ∀ r ∈ t.get hst, ∀ tg ∈ r.targets, C05Text.TextOK r tg := by
+  intro hst r hr tg htg
+  have hg := C05Main.good_newTable ht
+  obtain ⟨h0, hhost, habs⟩ := C05Fix.of_mem_get hg.inv.wf hr
+  have hmem : tg ∈ abs t hst r.path := by rw [habs]; exact htg
+  -- the target comes from a well-formed add
+  obtain ⟨d, hd, hc, e1, e2, e3, _⟩ := newTable_from ht hst r.path tg hmem
+  obtain ⟨c, hcm, rfl⟩ := List.mem_map.1 hd
+  have hok := hcs c hcm
+  unfold C05Lang.DefOK at hok
+  rw [hc] at hok
+  obtain ⟨hv, _, _, _, htags, hopts⟩ := hok
+  -- the route sits at the key of a well-formed add
+  have hne : abs t r.host r.path ≠ [] := by
+    rw [hhost, habs]; exact (hg.inv.noEmpty _ h0).2 r hr
+  obtain ⟨d', hd', hc', hkey, _, _⟩ := newTable_keyOK ht _ _ hne
+  obtain ⟨c', hcm', rfl⟩ := List.mem_map.1 hd'
+  have hok' := hcs c' hcm'
+  unfold C05Lang.DefOK at hok'
+  rw [hc'] at hok'
+  have hsrc : C05Lang.Tok c'.2.src := hok'.2.1
+  have h1 : r.host = (key c'.2.src).1 := congrArg Prod.fst hkey
+  have h2 : r.path = (key c'.2.src).2 := congrArg Prod.snd hkey
+  exact {
+    svc_ne := by rw [e1]; exact hv.1
+    svc_tok := by rw [e1]; exact hv.re
+    src_ne := by rw [h1, h2]; exact (C05Rebuild.src_of_key _).1
+    src_tok := by rw [h1, h2]; exact key_tok _ hsrc.re
+    url_ne := (hurl hst r hr tg htg).1
+    url_tok := (hurl hst r hr tg htg).2
+    tags_q := by rw [e2]; exact htags.q
+    tags_ne := by rw [e2]; exact htags.ne
+    opts_k := by rw [e3]; exact hopts.k
+    short := hshort hst r hr tg htg }
 
 end Fabio.Lemmas.C05From
